@@ -7,14 +7,14 @@ Local Open Scope Z_scope.
 Lemma stages_p0 o i s : st_p0 (run_stages o i s) = map (fun sh => fst (get_info sh)) (i_shards i).
 Proof. reflexivity. Qed.
 
-Lemma stages_p1 o i s : st_p1 (run_stages o i s) = gc o (i_active i) (st_p0 (run_stages o i s)).
+Lemma stages_p1 o i s : st_p1 (run_stages o i s) = recover (gc o (i_active i) (st_p0 (run_stages o i s))).
 Proof. reflexivity. Qed.
 
 Lemma stages_le_14 o i s : le_plan (st_p1 (run_stages o i s)) (st_p4 (run_stages o i s)).
 Proof.
   unfold run_stages. cbn [st_p1 st_p4].
   set (p0 := map (fun sh => fst (get_info sh)) (i_shards i)).
-  set (p1 := gc o (i_active i) p0).
+  set (p1 := recover (gc o (i_active i) p0)).
   set (ra := alleviate o p1 s).
   set (rb := assign o (i_active i) (global_status (i_explore i) p0) (fst (fst (fst ra))) (snd ra)).
   assert (H12 : le_plan p1 (fst (fst (fst ra)))) by apply alleviate_le.
@@ -81,8 +81,8 @@ Qed.
 Definition holder (p : plan) (h : N) (k : nat) : Prop :=
   si_ok (nth_si p k) = true /\ In h (keys_at p k).
 
-Lemma gc_justifies_holds o s other h tar :
-  gc_justifies o s other h tar = true -> In h (akeys (scr_of other)).
+Lemma gc_justifies_holds o fr s other h tar :
+  gc_justifies o fr s other h tar = true -> In h (akeys (scr_of other)).
 Proof.
   unfold gc_justifies. destruct (afind h (scr_of other)) eqn:E; [|discriminate].
   intros _. apply afind_some_keys. eauto.
@@ -210,7 +210,7 @@ Qed.
 
 Lemma stages_len_p4 o i s : length (st_p4 (run_stages o i s)) = length (i_shards i).
 Proof.
-  rewrite <- (le_len _ _ (stages_le_14 o i s)), stages_p1, gc_length, stages_p0. apply map_length.
+  rewrite <- (le_len _ _ (stages_le_14 o i s)), stages_p1, recover_length, gc_length, stages_p0. apply map_length.
 Qed.
 
 Lemma post_at_cycle o i sch k :
@@ -321,7 +321,7 @@ Proof.
   exists j. split; [assumption|].
   apply holds_if_planned; [assumption | assumption |].
   unfold final_plan. apply (le_keys _ _ (stages_le_14 o i (sst_of sch))).
-  rewrite stages_p1, stages_p0. apply Hj.
+  rewrite stages_p1, stages_p0, recover_keys. apply Hj.
 Qed.
 
 Theorem c01_taken_only_if o i sch k h :
@@ -340,7 +340,7 @@ Proof.
   destruct (in_dec N.eq_dec h (keys_at (gc o (i_active i) p0) k)) as [Hstill|Hcollected].
   - exfalso. rewrite holds_if_planned in Hgone; [discriminate | assumption | assumption |].
     unfold final_plan. apply (le_keys _ _ (stages_le_14 o i (sst_of sch))).
-    rewrite stages_p1, stages_p0. exact Hstill.
+    rewrite stages_p1, stages_p0, recover_keys. exact Hstill.
   - destruct (gc_fold_removed o (i_active i) (indices p0) p0 k h (nodup_p0 i Hnd) Hin0 Hcollected)
       as [Hn | [j [Hne Hj]]]; [congruence|].
     exists j. split; [assumption|]. apply holder_p0; [|exact Hj].
